@@ -4,7 +4,7 @@ sys.path.insert(0, os.path.dirname(os.path.dirname(os.path.abspath(__file__))))
 import vlib
 
 PID = "C02"
-LEAN_MODULES = ["QbiceVerif.Props.C02"]
+LEAN_MODULES = ["QbiceVerif.Props.C02", "QbiceVerif.Props.C02Walk"]
 DRIVER = "drv_lts"
 HARNESS_BIN = "conc"
 HARNESS_FEATURES = ""
@@ -24,6 +24,14 @@ PARTIAL = [
     "identity); hook_traces_accepted proves that every run of the full CT model is accepted by that replay (model traces are inside "
     "kStep traces); the converse (every kStep-accepted trace is a CT trace) is not proved, so trace validation checks the shared-state "
     "protocol, not per-task control flow",
+    "snapshot_walk_no_deadlock / snapshot_walk_all_complete / snapshot_walk_visits_snapshot (Props/C02Walk.lean, finding F60): proved on "
+    "the WK LTS — ONE backward-edge set (small tier: one vector behind one RwLock), walkers (process_task / invoke_backward_projections) "
+    "and writers (insert_element / remove_element of a publication) as tasks on W worker threads, any W >= 1, any number of tasks, any "
+    "yield points, any interleaving. It is not composed with the computing-table LTS: all_complete treats `publish` and the executor as "
+    "single events, so a combined statement (a CT run whose publish steps contain WK writes and whose firewall executions contain WK "
+    "walks completes) is not proved; the walk over several sets (dirty propagation continues into the callers' sets, one task per set) "
+    "is covered only as independent instances; the large tier (DashSet, a guard per shard) is not modelled. For the code before eaa75a9 "
+    "the statement is refuted: walk_holding_guard_can_deadlock (W = 1, 2 by evaluation; _W4; _any_W: every W >= 1 with one dropper per worker, proved) and reproduced on the real engine (corpus/C02-F60).",
 ]
 ASSUMPTIONS = [
     "tokio::sync::Notify::notify_waiters completes exactly the Notified futures created before the call, whether polled or not "
@@ -35,6 +43,11 @@ ASSUMPTIONS = [
     "C16's pinned_never_evicted / lock_table_same_lock over the real TinyLFU model)",
     "executors issue finitely many nested queries (maxCalls, any bound) to keys of smaller rank (acyclic program)",
     "DashSet::insert/remove/iteration under the outer read lock are modelled as atomic; an iteration is a snapshot taken when the guards are taken",
+    "WK (finding F60): a task parked by tokio::task::yield_now is polled again only by a worker thread that is not inside a poll (the model "
+    "lets ANY free worker take ANY queued task; tokio is stricter: the worker that owns the task's local queue / deferred list, or a "
+    "stealing worker — so the model's deadlock needs every worker blocked, the real runtime hangs earlier); parking_lot::RwLock::write "
+    "blocks the calling thread until every read guard is dropped and is granted as soon as none is held; read() is granted between two "
+    "events (a writer holds the lock only within one event); a walker parks at most k times, k arbitrary (the code: every 16 edges)",
 ]
 TRUSTED_EXTRA = [
     "modelled, not verified: scc::HashMap, tokio Notify/RwLock, parking_lot RwLock, DashSet (as atomic maps / fair locks); memory-model "
@@ -46,9 +59,18 @@ TRUSTED_EXTRA = [
     "the forced F6 schedule on the real set uses no hook: the gate is the BuildHasher type parameter, whose Default::default() the as-is "
     "upgrade calls while holding both locks",
     "parallel runs (2-16 worker threads) explore the interleavings the OS scheduler produces; a parallel-only failure is replayed by re-running its seed",
+    "modelled, not verified (WK): tokio's multi-thread / current_thread schedulers (run queues, LIFO slot, deferred wake-ups of yield_now) as "
+    "`queued -> running needs busy < W`; parking_lot's blocking write() as `a running writer has no enabled event while readers > 0 and keeps "
+    "its worker`; that process_task / invoke_backward_projections hold nothing else across their awaits. The hang itself is detected on the "
+    "real engine by an OS-thread watchdog (std mpsc recv_timeout, 20 s) around a runtime built per case — a tokio timeout could not fire "
+    "(its timer needs a free worker); the hung runtime's threads are abandoned, the harness process ends normally",
 ]
 
-RULE = ("per shard (own seed): (f6) the forced 2-thread upgrade race on the real CompressedBackwardEdgeSet; (tset) sequential op sequences "
+RULE = ("per shard (own seed): (f6) the forced 2-thread upgrade race on the real CompressedBackwardEdgeSet; (walk, finding F60) the corpus cases of "
+        "corpus/C02-F60 at 0 (= current_thread), 1, 2, 4 workers, then generated 'wide fan-in with droppers' programs: 1-3 groups of a firewall (or a "
+        "projection / normal node over it) with 16-40 callers of which 1-8 stop and 0-2 start reading it after the edit, the epoch after the edit "
+        "requesting one steady caller per group and every dropper/adder (through a fresh root or directly) concurrently, on 0/1/2/3/4/8 workers; "
+        "oracles: from-scratch values, overlap, executed-twice, OS-thread watchdog (sig C02:hang-wide-walk); (tset) sequential op sequences "
         "ins/rem/len/iter over a universe of 1..80 elements crossing the 32-element threshold, answered by implementation and model line by line, "
         "and 2-8 thread histories checked by an independent linearizability oracle; (trace) parallel engine runs with the hook sink installed, every "
         "event replayed through the model (a non-enabled event = REJECT = correspondence failure); (engine) parallel engine runs on a multi-thread "
